@@ -254,8 +254,8 @@ func buildCursor(c c14Case, db *bbolt.DB) (open func(tx *bbolt.Tx) ast.SetCursor
 				if eb.HasError() {
 					return eb.GetError()
 				}
-				if c.Kind == "iterate-valid-ids" && i%2 == 0 {
-					// every second entity has extended data; IterateValidIds of the extended store lists only those
+				if c.Kind == "iterate-valid-ids" && i%3 == 2 {
+					// every third entity has extended data (the first two do not); IterateValidIds of the extended store lists only those
 					eb.GetOrCreatePath("ext")
 				}
 			}
@@ -264,7 +264,7 @@ func buildCursor(c c14Case, db *bbolt.DB) (open func(tx *bbolt.Tx) ast.SetCursor
 		if c.Kind == "iterate-valid-ids" {
 			expect = nil
 			for i, e := range asc {
-				if i%2 == 0 {
+				if i%3 == 2 {
 					expect = append(expect, e)
 				}
 			}
